@@ -141,15 +141,15 @@ def describe_divergence(ex, d):
             sb, sa = slot_exprs(ex, nb), slot_exprs(ex, na)
         except Unsupported:
             sb, sa = [], []
-        if len(sb) == len(sa):
-            cfun = O.Compiler(ex)
-            for x, y in zip(sb, sa):
-                if str(x) != str(y):
+        # slot values: control entries are (sid, kind, v...) ; leaf entries end with the tuple of slot values
+        vb = eb[2:] if eb[1] in ("If", "For") else eb[-1]
+        va = ea[2:] if ea[1] in ("If", "For") else ea[-1]
+        if len(sb) == len(sa) == len(vb) == len(va):
+            for x, y, p, q in zip(sb, sa, vb, va):
+                if (bool(p) != bool(q)) if eb[1] == "If" else (p != q):
                     b, a = first_line(x), first_line(y)
-                    # is this the slot that differs?  (cheap re-evaluation is not needed: report the first textual
-                    # difference whose printed forms differ; keys only need to be stable and specific)
                     return ("simplify:%s:%s -> %s" % (classify(b, a), b, a),
-                            "`%s` was replaced by `%s`; trace entries differ: %r vs %r" % (b, a, eb, ea))
+                            "`%s` (= %r) was replaced by `%s` (= %r) in `%s`" % (b, p, a, q, first_line(nb)))
         return ("simplify:stmt:%s -> %s" % (first_line(nb), first_line(na)),
                 "statement values differ: %r vs %r" % (eb, ea))
     if eb is not None and (ea is None or eb[:2] != ea[:2]):
@@ -324,6 +324,10 @@ def unit_cases(rng, n, jobs, recs):
         except Unsupported as e:
             continue
         rec["expect"] = expect
+        if kind in ("index_start", "simp_e"):
+            rec["changed"] = expect != ex.expr(e)       # non-trivial: the real code rewrote the expression
+        else:
+            rec["changed"] = expect == "true"            # non-trivial: the two expressions are identified
         rec["tags"] = [kind, "crash" if expect == "crash" else "ok"]
         if "bf" in rec and rec["bf"] and rec["bf"].get("violation"):
             rec["violation"] = rec["bf"].pop("violation")
